@@ -309,9 +309,10 @@ func (val Value) Equals(other Value) Value {
 
 		// Two sets are equal if all of their values are known and all values
 		// in one are also in the other.
+		ety := ty.ElementType()
 		for it := s1.Iterator(); it.Next(); {
 			rv := it.Value()
-			if _, unknown := rv.(*unknownType); unknown { // "*unknownType" is the internal representation of unknown-ness
+			if ev := (Value{ty: ety, v: rv}); !ev.IsWhollyKnown() { // an element with any unknown part might equal anything
 				return unknownResult()
 			}
 			if !s2.Has(rv) {
@@ -320,7 +321,7 @@ func (val Value) Equals(other Value) Value {
 		}
 		for it := s2.Iterator(); it.Next(); {
 			rv := it.Value()
-			if _, unknown := rv.(*unknownType); unknown { // "*unknownType" is the internal representation of unknown-ness
+			if ev := (Value{ty: ety, v: rv}); !ev.IsWhollyKnown() {
 				return unknownResult()
 			}
 			if !s1.Has(rv) {
